@@ -46,6 +46,7 @@ Spec == Init /\ [][Next]_vars
 
 Laws ==
     /\ (kind = "lag" /\ a = 0 /\ b = NULL) => LenPreserved(s) /\ PrefixLaw(s)
+    /\ kind = "lag" => LagHomogeneous(s, a, b)
     /\ (kind = "fill" /\ a = NULL) => FillLaws(s) /\ FillRefines(s)
     /\ (kind = "clip" /\ a = NULL /\ b = NULL) => ClipLaws(s)
     /\ kind = "uniq" => UniqRefines(s)
@@ -54,7 +55,7 @@ Laws ==
 EmitMap ==
     PrintT(<<"REPLAY", ToJson(
       CASE kind = "lag" ->
-             [op |-> "lag", s |-> s, n |-> a, fill |-> b,
+             [op |-> "lag", s |-> s, n |-> a, fill |-> b, deg |-> LagDeg,
               shift |-> DefShift(s, a, b), diff |-> DefDiff(s, a, b), pct |-> DefPct(s, a)]
         [] kind = "fill" ->
              [op |-> "fill", s |-> s, dflt |-> a,
